@@ -86,6 +86,7 @@ let run path =
       "c16_bound", ConnSpec.c16_bound; "c12_will", ConnSpec.c12_will;
       "c15_in_order", ConnSpec2.c15_in_order; "c15_release_intact", ConnSpec2.c15_release_intact;
       "c15_resend_order", ConnSpec2.c15_resend_order; "c15_dequeue_order", ConnSpec2.c15_dequeue_order;
+      "c15_resend_first", ConnSpec5.c15_resend_first;
       "c14_lifecycle", ConnSpec5.c14_lifecycle2; "c06_forward_intact", ConnSpec5.c06_forward_intact;
       "c08_popped_is_saved", ConnSpec3.c08_popped_is_saved; "c08_pubrel_after_store", ConnSpec3.c08_pubrel_after_store;
       "c20_tokens", ConnSpec3.c20_tokens; "c16_slots_not_lost", ConnProofsCDefs.c16_slots_not_lost2 ] in
